@@ -626,12 +626,7 @@ impl Parser {
                 Ok(Value::Name(name_token))
             } else if self.match_token(Token::LBrace) {
                 // Lark template usage (not supported outside of parser anyways)
-                let mut values = Vec::new();
-                values.push(self.parse_value()?);
-                while self.match_token(Token::Comma) {
-                    values.push(self.parse_value()?);
-                }
-                self.expect_token(Token::RBrace)?;
+                let values = self.parse_template_values()?;
                 Ok(Value::TemplateUsage {
                     name: name_token,
                     values,
@@ -645,6 +640,28 @@ impl Parser {
         } else {
             bail!("Expected value")
         }
+    }
+
+    /// Parses the arguments of a template usage (after '{'); values can nest.
+    fn parse_template_values(&mut self) -> Result<Vec<Value>> {
+        ensure!(
+            self.nesting_level + 1 < MAX_NESTING,
+            "lark grammar too deeply nested"
+        );
+        self.nesting_level += 1;
+        let values = self.parse_template_values_inner();
+        self.nesting_level -= 1;
+        values
+    }
+
+    fn parse_template_values_inner(&mut self) -> Result<Vec<Value>> {
+        let mut values = Vec::new();
+        values.push(self.parse_value()?);
+        while self.match_token(Token::Comma) {
+            values.push(self.parse_value()?);
+        }
+        self.expect_token(Token::RBrace)?;
+        Ok(values)
     }
 
     fn parse_param_expr(&mut self) -> Result<ParamExpr> {
@@ -786,6 +803,17 @@ impl Parser {
     }
 
     fn parse_param_cond(&mut self) -> Result<ParamCond> {
+        ensure!(
+            self.nesting_level + 1 < MAX_NESTING,
+            "lark grammar too deeply nested"
+        );
+        self.nesting_level += 1;
+        let cond = self.parse_param_cond_inner();
+        self.nesting_level -= 1;
+        cond
+    }
+
+    fn parse_param_cond_inner(&mut self) -> Result<ParamCond> {
         let n = self.expect_token_val(Token::Rule)?;
         let r = match n.as_str() {
             "true" => ParamCond::True,
